@@ -15,6 +15,8 @@ type FaultStore struct {
 	armed   bool
 	Allowed int
 	Seen    int
+	// OnWrite, when set, is called before every durable write since Arm with its ordinal (1 = first)
+	OnWrite func(ordinal int)
 }
 
 func NewFaultStore(s storage.Storage) *FaultStore { return &FaultStore{Storage: s} }
@@ -38,11 +40,17 @@ type faultBatch struct {
 func (b *faultBatch) Commit() {
 	b.f.mu.Lock()
 	drop := false
+	var hook func(int)
+	ord := 0
 	if b.f.armed {
 		b.f.Seen++
 		drop = b.f.Seen > b.f.Allowed
+		hook, ord = b.f.OnWrite, b.f.Seen
 	}
 	b.f.mu.Unlock()
+	if hook != nil {
+		hook(ord)
+	}
 	if drop {
 		return
 	}
@@ -56,6 +64,9 @@ func (f *FaultStore) drop() bool {
 		return false
 	}
 	f.Seen++
+	if f.OnWrite != nil {
+		f.OnWrite(f.Seen)
+	}
 	return f.Seen > f.Allowed
 }
 
